@@ -28,6 +28,7 @@ pub struct T {
     pub idle_mark: u64,
     pub last_loc: usize,
     pub last_val: u64,
+    pub hist: [u64; 12],
     pub same_loc: u32,
     pub yielded: bool,
     /// the thread said (or showed) that it is polling: time may pass
@@ -381,6 +382,7 @@ impl Hooks for Ctl {
             g.threads[me].yielded = true;
             g.threads[me].spinning = true;
             g.threads[me].same_loc = 0;
+            g.threads[me].hist = [0; 12];
         }
         // preemption: the OS takes the CPU away from this thread for some (virtual) time
         if g.stall_n > 0 && g.stalls < g.max_stalls && g.next_rand() % g.stall_n == 0 {
@@ -410,14 +412,29 @@ impl Hooks for Ctl {
         let mut g = self.m.lock().unwrap_or_else(|e| e.into_inner());
         g.threads[me].yielded = false;
         let l = loc as *const _ as usize;
-        if g.threads[me].last_loc == l && g.threads[me].last_val == val {
-            g.threads[me].same_loc += 1;
+        // polling detection: the last 3p records (site, value) of this thread repeat with a period p <= 4
+        // (p = 1: the same value at the same site three times; p > 1: e.g. a failed-CAS retry loop)
+        let h = (l as u64).wrapping_mul(0x9E3779B97F4A7C15) ^ val;
+        let t = &mut g.threads[me];
+        t.hist.rotate_left(1);
+        t.hist[11] = h;
+        let mut periodic = false;
+        for p in 1..=4usize {
+            let n = 3 * p;
+            let w = &t.hist[12 - n..];
+            if w.iter().all(|x| *x != 0) && (0..n - p).all(|i| w[i] == w[i + p]) {
+                periodic = true;
+                break;
+            }
+        }
+        t.last_loc = l;
+        t.last_val = val;
+        if periodic {
+            t.same_loc = 3;
         } else {
-            g.threads[me].last_loc = l;
-            g.threads[me].last_val = val;
-            g.threads[me].same_loc = 0;
-            // a different shared access or a different value: the thread makes progress
-            g.threads[me].spinning = false;
+            t.same_loc = 0;
+            // not repeating itself: the thread makes progress
+            t.spinning = false;
         }
         if !g.record {
             return;
@@ -515,6 +532,7 @@ impl Hooks for Ctl {
                 idle_mark: u64::MAX,
                 last_loc: 0,
                 last_val: 0,
+                hist: [0; 12],
                 same_loc: 0,
                 yielded: false,
                 spinning: false,
@@ -747,6 +765,7 @@ pub fn run(cfg: Config, body: impl FnOnce(&Ctx)) -> ! {
             idle_mark: u64::MAX,
             last_loc: 0,
                 last_val: 0,
+                hist: [0; 12],
             same_loc: 0,
             yielded: false,
                 spinning: false,
